@@ -636,6 +636,15 @@ class Engine:
             raise Unsupported("multi-item with")
         item = s.items[0]
         ctx = self.eval(item.context_expr, env)
+        if isinstance(ctx, tuple) and ctx and ctx[0] == "suppress":
+            # contextlib.suppress(*exceptions): the listed exceptions end the block silently
+            try:
+                self.block(s.body, env)
+            except Raise as r:
+                if r.kind != "Kill" and any(exc_isinstance(r.kind, n) for n in ctx[1]):
+                    return
+                raise
+            return
         v = self.hooks.with_enter(self, ctx, env)
         if item.optional_vars is not None:
             self.assign(item.optional_vars, v, env)
@@ -907,6 +916,11 @@ class Engine:
                 return {"True": True, "False": False, "None": None}[e.id]
             if e.id in PYTYPES:
                 return PYTYPES[e.id]
+            if e.id in EXC_PARENT or e.id == "BaseException":
+                try:
+                    return self.hooks.global_name(self, e.id)
+                except Unsupported:
+                    return ("exc-class", e.id)
             return self.hooks.global_name(self, e.id)
         if isinstance(e, ast.Tuple):
             return tuple(self.eval(x, env) for x in e.elts)
@@ -1125,6 +1139,11 @@ class Engine:
             return self.hooks.call_name(self, n, args, kw, env)
         if isinstance(f, ast.Attribute):
             obj = self.eval(f.value, env)
+            if isinstance(obj, Opaque) and obj.tag == "module" and obj.attrs.get("modname") == "contextlib" and f.attr == "suppress":
+                names = []
+                for a in args:
+                    names.append(a[1] if isinstance(a, tuple) else a.kind if isinstance(a, Raise) else str(a))
+                return ("suppress", names)
             if isinstance(obj, dict) and f.attr == "get":
                 return obj.get(args[0], args[1] if len(args) > 1 else None)
             if isinstance(obj, dict) and f.attr == "pop" and not is_sym(args[0]):
